@@ -107,11 +107,11 @@ def path_link_overlap_doc(rng):
     for f, fo, t, to in steps:
         if rng.random() < 0.85 or force:
             ov = rng.choice(ovs) if not (force and (f, t) == ("a", mid)) else "*"
-            if rng.random() < 0.3 and ov != "*":
+            if rng.random() < 0.3 and (ov != "*" or force):
                 out.append("L\t%s\t%s\t%s\t%s\t%s" % (t, S.inv(to), f, S.inv(fo), ov))
             else:
                 out.append("L\t%s\t%s\t%s\t%s\t%s" % (f, fo, t, to, ov))
-    for pn in ["p", "q"][:2 if force else rng.randint(1, 2)]:
+    for pn in ["p", "q", "r"][:rng.choice([2, 3]) if force else rng.randint(1, 2)]:
         n = rng.choice([2, 2, 3])
         names = ["a+", mid + "+", "c" + steps[1][3]][:n]
         if rng.random() < 0.3 and not force:
@@ -119,7 +119,7 @@ def path_link_overlap_doc(rng):
         else:
             pov = ",".join(rng.choice(ovs) for _ in range(n - 1))
             if force:
-                pov = ",".join([{"p": "5M", "q": "6M"}[pn]] + pov.split(",")[1:])
+                pov = ",".join([{"p": "5M", "q": "6M", "r": "7M"}[pn]] + pov.split(",")[1:])
         if force and rng.random() < 0.3:
             # (the same walk written from the other end)
             names = [x[:-1] + S.inv(x[-1]) for x in reversed(names)]
